@@ -20,7 +20,12 @@ def b2a_base58(s: bytes) -> str:
 
 def a2b_base58(s: str) -> bytes:
     """Convert base58 to binary using BASE58_ALPHABET."""
-    v, prefix = to_long(BASE58_BASE, lambda c: BASE58_LOOKUP[c], s.encode("utf8"))
+    try:
+        as_bytes = s.encode("utf8")
+    except UnicodeEncodeError:
+        # a lone surrogate: certainly not base58
+        raise EncodingError("not base58: %r" % s)
+    v, prefix = to_long(BASE58_BASE, lambda c: BASE58_LOOKUP[c], as_bytes)
     return from_long(v, prefix, 256, lambda x: x)
 
 
